@@ -29,7 +29,9 @@ from sdc11073.exceptions import InvalidActionError, ValidationError  # noqa: E40
 from sdc11073.httpserver.compression import CompressionHandler  # noqa: E402
 from sdc11073.httpserver.httpreader import DechunkError, HTTPReader  # noqa: E402
 from sdc11073.httpserver.httprequesthandler import DispatchingRequestHandler  # noqa: E402
+from lxml import etree as etree_  # noqa: E402
 from sdc11073.pysoap.soapenvelope import Fault, faultcodeEnum  # noqa: E402
+from sdc11073.provider.providerimpl import _PathElementDispatcher  # noqa: E402
 
 FOCI = ('spin', 'raises', 'all')
 
@@ -277,6 +279,9 @@ def request_body(te: int, cl: int, ce: int, se: int, pool: int, body: int, focus
         try:
             st = hs.FakeStream(data)
             kind, res = body_outcome(HTTPReader.read_request_body, hs.FakeMessage(_headers(te, cl, ce), st), st, se)
+            if focus != 'spin':
+                # rfile.read(<0) returns when the peer closes its side: the request is never answered on a live connection
+                orc.check(not st.negative_read, 'request_body:reads-until-the-peer-closes')
             if kind == 'returned':
                 orc.check(res is None or isinstance(res, bytes), 'request_body:result-not-bytes')
             elif kind not in ('rejected', 'codec-rejected'):
@@ -330,6 +335,9 @@ class StubMessage:
         return self.data
 
 
+_LXML_PROBE = etree_.Element('probe')
+
+
 class StubFactory:
     """MessageFactory stand-in: builds StubMessage(FAULT) from a real Fault payload; anything else is a harness-visible
     AttributeError, like the real factory dereferencing a non-message payload."""
@@ -340,6 +348,8 @@ class StubFactory:
     def _mk(self, payload):
         if not isinstance(payload, Fault):
             raise AttributeError('payload is not a message type')
+        for reason in payload.Reason.Text:
+            _LXML_PROBE.text = reason.text     # the real factory hands the reason text to lxml: ValueError for what XML cannot hold
         self.built.append(payload)
         return StubMessage(FAULT)
 
@@ -416,7 +426,7 @@ def touched(dispatcher, service):
 
 
 # wsa:Action values no handler is registered for - xs:anyURI accepts all of them, so schema validation lets them through
-UNKNOWN_ACTIONS = ('urn:unknown', 'urn:\u20acuro', 'urn:x\r\nX-Injected: yes', 'urn:x\ny', 'urn:\x00')
+UNKNOWN_ACTIONS = ('urn:unknown', 'urn:\u20acuro', 'urn:x\r\nX-Injected: yes', 'urn:x\ny', 'urn:\x7f')
 UNKNOWN_ACTION = ['urn:unknown']
 
 
@@ -471,6 +481,55 @@ def middleware_post(mr: int, act: bool, ho: int, deferred: bool, path: int, ua: 
                 orc.check(touched(disp, service) == 0, 'do_post:rejected-request-reached-handler')
             else:
                 orc.check(touched(disp, service) == 1, 'do_post:accepted-request-not-dispatched-once')
+        except Exception as ex:  # noqa: BLE001
+            return exc_result(orc, ex, 'harness')
+        return orc.result()
+
+
+SECOND_LEVEL = ('Get', 'Nope', '', 'a\x01b', 'a\x00', 'a\x08', 'a\x7fb', 'a\x85b', 'a\xff', 'G\x0bet', 'a<b>&', 'Get ')
+
+
+def middleware_post_second_level(elem: int, deferred: bool, tail: int) -> str:
+    """
+    MessageConverterMiddleware.do_post over the provider's REAL _PathElementDispatcher (second path element selects the
+    service): any second path element a request line can carry - control characters included - is answered, never raised:
+    200 for the registered element, a 4xx/5xx with a fault built for every other one; the reason fits a status line.
+    pre: 0 <= elem < 12
+    pre: 0 <= tail < 3
+    post: __return__ == 'ok'
+    """
+    elem = pick(elem, SECOND_LEVEL)
+    deferred = bool(deferred)
+    path = '/k/' + elem + pick(tail, ('', '/', '/x'))
+    UNKNOWN_ACTION[0] = UNKNOWN_ACTIONS[0]
+    with untraced():
+        orc = Oracle()
+        try:
+            service = Service(0, 0)
+            inner = mk_dispatcher(deferred, service)
+            outer = _PathElementDispatcher()
+            outer.register_instance('Get', inner)
+            factory = StubFactory()
+            comp = MessageConverterMiddleware(StubReader(0, ACTION), factory, hs.NullLogger(), outer)
+            try:
+                result = comp.do_post(hs.CIHeaders(), path, ('peer', 1), b'<x/>')
+            except Exception as ex:  # noqa: BLE001
+                return exc_result(orc, ex, 'do_post')
+            orc.check(isinstance(result, tuple) and len(result) == 3, 'do_post2:result-shape')
+            status, reason, body = result
+            orc.check(isinstance(status, int) and (status == 200 or 400 <= status <= 599), 'do_post2:bad-status')
+            orc.check(isinstance(reason, str) and isinstance(body, bytes), 'do_post2:bad-reason-or-body')
+            try:
+                reason.encode('latin-1', 'strict')
+            except UnicodeError:
+                orc.fail('do_post2:reason-not-encodable-in-a-status-line')
+            orc.check('\r' not in reason and '\n' not in reason and len(reason) <= 200, 'do_post2:reason-not-a-status-line-text')
+            orc.check((status == 200) == (elem == 'Get'), 'do_post2:status-vs-registration')
+            if status == 200:
+                orc.check(body == (b'' if deferred else RESP) and touched(inner, service) == 1, 'do_post2:ok-without-proper-response')
+            else:
+                orc.check(body == FAULT and len(factory.built) == 1, 'do_post2:error-without-fault')
+                orc.check(touched(inner, service) == 0, 'do_post2:rejected-request-reached-handler')
         except Exception as ex:  # noqa: BLE001
             return exc_result(orc, ex, 'harness')
         return orc.result()
@@ -568,6 +627,58 @@ def run_method(h, method):
     except Exception as ex:  # noqa: BLE001
         return 'escapes:' + type(ex).__name__
     return None
+
+
+RAISED_TEXTS = ('boom', '', 'two\nlines', 'a\r\nX-Injected: yes', 'x' * 5000, 'gr\u00fc\u00dfe \u20ac', 'tab\tand\x00nul',
+                'Traceback (most recent call last):\n  File "x.py", line 1\n\nValueError: All strings must be XML compatible')
+RAISED_TYPES = (Exception, ValueError, KeyError, UnicodeError, RuntimeError)
+
+
+class RaisingComponent:
+    """A registered component whose do_post raises (what a defect anywhere below the handler looks like to the handler)."""
+
+    def __init__(self, exc):
+        self.exc = exc
+
+    def do_post(self, *_a, **_k):
+        raise self.exc
+
+
+def handler_component_raises(text: int, etype: int, ae: int, chunk: int) -> str:
+    """
+    do_POST when the registered component raises an exception with an arbitrary message: the peer gets exactly one 5xx
+    status line that IS one line (the message, whatever it holds, does not get into the response head), terminated headers
+    and a body framed as announced.
+    pre: 0 <= text < 8
+    pre: 0 <= etype < 5
+    pre: 0 <= ae < 3
+    pre: 0 <= chunk < 3
+    post: __return__ == 'ok'
+    """
+    text, etype = pick(text, RAISED_TEXTS), pick(etype, RAISED_TYPES)
+    ae = pick(ae, (None, 'gzip', 'bogus'))
+    chunk = pick(chunk, (0, 1, 5))
+    with untraced():
+        orc = Oracle()
+        try:
+            registry = PathElementRegistry()
+            registry.register_instance(KEY, RaisingComponent(etype(text)))
+            pairs = [('Content-Length', '4')]
+            if ae is not None:
+                pairs.append(('Accept-Encoding', ae))
+            h = RecHandler('/k/Get', hs.CIHeaders(pairs), hs.FakeStream(b'<x/>'), mk_server(registry, chunk))
+            esc = run_method(h, 'POST')
+            if esc is not None:
+                orc.fail('POST:component-exception-' + esc)
+                return orc.result()
+            code = check_exchange(orc, h, 'POST')
+            orc.check(code is not None and 500 <= code <= 599, 'POST:component-exception-not-answered-5xx')
+            for r in h.out:
+                if r[0] == 'status':
+                    orc.check(r[2] is None or len(r[2]) <= 200, 'POST:status-line-carries-the-exception-text')
+        except Exception as ex:  # noqa: BLE001
+            return exc_result(orc, ex, 'harness')
+        return orc.result()
 
 
 TARGET_TOK = ('', '/', 'k', 'z', '?', '#', ':', 'wsdl', 'http://h', '[', '*')
